@@ -128,7 +128,7 @@ def run_history(env, ops, lib_seed):
     return f'{head} {len(ops)} ' + ' '.join(toks), ' ; '.join(outs) + ' | ' + ','.join(shared)
 
 
-def random_ops(rng, n_actions, length, seeded=True):
+def random_ops(rng, n_actions, length, seeded=True, p_foreign=0.1):
     ops = []
     if seeded:
         ops.append(('S', rng.randrange(2**31)))
@@ -138,7 +138,7 @@ def random_ops(rng, n_actions, length, seeded=True):
     for _ in range(length):
         r = rng.random()
         if r < 0.6:
-            ops.append(('T', rng.randrange(8) if rng.random() < 0.1 else rng.randrange(n_actions)))
+            ops.append(('T', rng.randrange(8) if rng.random() < p_foreign else rng.randrange(n_actions)))
         elif r < 0.75:
             ops.append(('GO',))
         elif r < 0.85:
@@ -263,6 +263,38 @@ def fam_env_random(seed, shard, nshards, n):
         for env, tag in ((env_f, 'factory'), (env_h, 'hand')):
             opstr, exp = run_history(env, ops, lib_seed)
             yield f'env {spec} {opstr}', exp, f'envr-{data["reset_function"]["name"]}-{tag}'
+
+
+def fam_env_nodebug(seed, shard, nshards, n):
+    """the same histories with the library debug flag OFF (what `python -O` gives): argument checks
+    that are part of the contract (actions outside the action space) must not depend on it"""
+    from gym_gridverse.debugging import reset_gv_debug
+
+    rng = random.Random(f'envnd-{seed}-{shard}')
+    reset_gv_debug(False)
+    try:
+        for k in range(n // nshards):
+            if k % 3 == 0:
+                path = rng.choice(YAML_FILES)
+                data = load(path)
+                if rng.random() < 0.7:
+                    # restrict the action space so that foreign actions exist
+                    data['action_space'] = [a.name for a in rng.sample(ACTIONS, rng.randint(2, 6))]
+            else:
+                data = random_config(rng)
+                if 'action_space' not in data and rng.random() < 0.5:
+                    data['action_space'] = [a.name for a in rng.sample(ACTIONS, rng.randint(2, 6))]
+            try:
+                spec = envspec.env_tokens(data, debug=False)
+                env_f = factory_env_from_data(copy.deepcopy(data))
+            except envspec.Unsupported:
+                continue
+            nact = len(env_f.action_space.actions)
+            ops = random_ops(rng, nact, rng.randint(5, 30), seeded=True, p_foreign=0.3)
+            opstr, exp = run_history(env_f, ops, rng.randrange(2**31))
+            yield f'env {spec} {opstr}', exp, f'envnd-{data["reset_function"]["name"]}'
+    finally:
+        reset_gv_debug(None)
 
 
 # ---------------------------------------------------------------------------------------------
